@@ -31,12 +31,13 @@ void ProxyIOGateway :: HandleIncomingByteBuffer(AbstractGatewayMessageReceiver &
       if (GetMaximumPacketSize() > 0)
       {
          // packet-IO implementation
-         _fakePacketReceiveIO.SetBuffersToRead(buf, fromIAP);
-         _slaveGateway()->SetDataIO(DummyDataIORef(_fakePacketReceiveIO));
+         // Note that the fake-packet's maximum size has to be as large as (buf), since (buf) may be a Message that was
+         // reassembled from many packets; otherwise the slave gateway would see only the first part of it, and discard it.
+         ByteBufferPacketDataIO fakePacketReceiveIO(buf, fromIAP, muscleMax(buf()->GetNumBytes(), _fakePacketReceiveIO.GetMaximumPacketSize()));
+         _slaveGateway()->SetDataIO(DummyDataIORef(fakePacketReceiveIO));
          _scratchReceiver    = &receiver;
          _scratchReceiverArg = (void *) &fromIAP;
          (void) _slaveGateway()->DoInput(*this, buf()->GetNumBytes());
-         _fakePacketReceiveIO.ClearBuffersToRead();
       }
       else
       {
